@@ -1,3 +1,4 @@
+mod borrow;
 mod exec;
 mod gen;
 mod types;
@@ -43,6 +44,9 @@ fn main() {
             }
             let off: u64 = args[4].parse().unwrap_or_else(|_| usage());
             exec::exec_child(&args[2], &args[3], off, args[5] == "1");
+        }
+        "borrow" => {
+            std::process::exit(borrow::main(&args[2..]));
         }
         "gen" => {
             if args.len() < 3 {
